@@ -48,6 +48,9 @@ def endblock (d : State) (kind ps total faults now : String) : State × String :
     (d', showState d')
   | _, _, _, _ => (d, "bad-op")
 
+/-- the fixture's active set: five bonded validators, accounts 1..5 -/
+def bondedSet : List Nat := [1, 2, 3, 4, 5]
+
 def resWord (r : Res) : String := if r == .ok then "ok " else "rejected "
 
 /-- the property's view of a submission: a key already held by a DIFFERENT claim must not be shared -/
@@ -56,28 +59,43 @@ def clash : String := "distinct-claims-share-key"
 def step (d : State) (args : List String) : State × String :=
   match args with
   | ["reset"] => (init, "ok")
-  -- `vote <validator> <nonce> <hash> <remote height> <applicable> <amount> <compass id of the claim> <claim identity>`
-  | ["vote", v, n, h, eth, appl, amt, cp, cid] =>
-    match parseNat? v, parseNat? n, parseNat? h, parseNat? eth, parseNat? appl, parseNat? amt, parseNat? cp, parseNat? cid with
-    | some v, some n, some h, some eth, some appl, some amt, some cp, some cid =>
+  -- a deposit claim message:
+  -- `vote <creator account> <orchestrator account> <nonce> <hash> <remote height> <applicable> <amount> <compass id of the claim> <claim identity>`
+  -- (validator k has account k; any other number is an account that is no validator)
+  | ["vote", c, v, n, h, eth, appl, amt, cp, cid] =>
+    match parseNat? c, parseNat? v, parseNat? n, parseNat? h, parseNat? eth, parseNat? appl, parseNat? amt, parseNat? cp, parseNat? cid with
+    | some c, some v, some n, some h, some eth, some appl, some amt, some cp, some cid =>
       match register d.reg h cid with
       | none => (d, clash)
       | some reg =>
-        let r := vote d.s.o v n h eth (appl != 0) amt cp
+        let r := voteMsg bondedSet d.s.o c v n h eth (appl != 0) amt cp
+        let d' : State := { s := { d.s with o := r.1 }, reg := reg }
+        (d', resWord r.2 ++ showState d')
+    | _, _, _, _, _, _, _, _, _ => (d, "bad-op")
+  -- a light-node-sale claim message (mints nothing):
+  -- `votel <creator account> <orchestrator account> <nonce> <hash> <remote height> <applicable> <compass id> <claim identity>`
+  | ["votel", c, v, n, h, eth, appl, cp, cid] =>
+    match parseNat? c, parseNat? v, parseNat? n, parseNat? h, parseNat? eth, parseNat? appl, parseNat? cp, parseNat? cid with
+    | some c, some v, some n, some h, some eth, some appl, some cp, some cid =>
+      match register d.reg h cid with
+      | none => (d, clash)
+      | some reg =>
+        let r := voteMsg bondedSet d.s.o c v n h eth (appl != 0) 0 cp
         let d' : State := { s := { d.s with o := r.1 }, reg := reg }
         (d', resWord r.2 ++ showState d')
     | _, _, _, _, _, _, _, _ => (d, "bad-op")
-  -- executed-batch claim: `votex <validator> <nonce> <hash> <remote height> <batch nonce> <compass id> <claim identity>`
-  | ["votex", v, n, h, eth, id, cp, cid] =>
-    match parseNat? v, parseNat? n, parseNat? h, parseNat? eth, parseNat? id, parseNat? cp, parseNat? cid with
-    | some v, some n, some h, some eth, some id, some cp, some cid =>
+  -- executed-batch claim message:
+  -- `votex <creator account> <orchestrator account> <nonce> <hash> <remote height> <batch nonce> <compass id> <claim identity>`
+  | ["votex", c, v, n, h, eth, id, cp, cid] =>
+    match parseNat? c, parseNat? v, parseNat? n, parseNat? h, parseNat? eth, parseNat? id, parseNat? cp, parseNat? cid with
+    | some c, some v, some n, some h, some eth, some id, some cp, some cid =>
       match register d.reg h cid with
       | none => (d, clash)
       | some reg =>
-        let r := voteExec d.s v n h eth id cp
+        let r := voteExecMsg bondedSet d.s c v n h eth id cp
         let d' : State := { s := r.1, reg := reg }
         (d', resWord r.2 ++ showState d')
-    | _, _, _, _, _, _, _ => (d, "bad-op")
+    | _, _, _, _, _, _, _, _ => (d, "bad-op")
   | ["send", amt] =>
     match parseNat? amt with
     | some amt => let d' : State := { d with s := { d.s with b := send d.s.b amt } }; (d', showState d')
